@@ -51,6 +51,9 @@ SLICES = {
     "in_qos2_alias": dict(Roles={"server"}, Vers={"v50"}, AppKinds={"pubrec"}, PeerKinds={"publish", "pubrel"},
                           QosSet={2}, InPids={1}, Topics={"t1", ""}, Aliases={0, 1, 2}, AckTAMs={NA, 1}, Rcs={0},
                           OptSets=[set(), {"auto_pub"}], MaxConns=2, Cleans={False}, ConnSEIs={10}, MaxHeld=0),
+    # the application answers late: PUBREC / PUBCOMP handed to send() while the connection is down (refused, must change nothing)
+    "in_qos2_disc": dict(Roles={"server", "client"}, Vers={"v50"}, AppKinds={"pubrec", "pubcomp"}, PeerKinds={"publish"}, QosSet={2}, InPids={1},
+                         Rcs={0, 128}, MaxConns=2, Cleans={False}, SPs={True}, ConnSEIs={10}, MaxHeld=0, SendWhileDisc=True),
     "in_rm": dict(Roles={"client", "server"}, Vers={"v50"}, AppKinds={"puback", "pubrec", "pubcomp"}, PeerKinds={"publish", "pubrel"},
                   QosSet={1, 2}, InPids={1, 2}, Rcs={0, 128}, OptSets=[set(), {"auto_pub"}], MaxConns=1,
                   ConnRMs={NA, 1}, AckRMs={NA, 1}, MaxHeld=0),
@@ -68,7 +71,7 @@ SLICES = {
                 OptSets=[set(), {"auto_pub"}, {"auto_map"}], MaxConns=1, Fire=True, KAs={0, 10}),
     "mps_resume": dict(Roles={"client", "server"}, Vers={"v50"}, AppKinds={"publish"}, PeerKinds={"puback", "pubrec", "pubcomp"}, QosSet={1, 2},
                        AckMPSs={NA, 3, 10, 11}, ConnMPSs={NA, 3, 10, 11}, OptSets=[{"auto_pub"}], MaxConns=2, Cleans={False},
-                       ConnSEIs={10}, SPs={True}),
+                       ConnSEIs={10}, SPs={True}, ExtraPids={1, 9}),
     # keep-alive timers (C15, C19)
     "timers_c": dict(Vers={"v311", "v50"}, AppKinds={"pingreq", "publish", "disconnect"}, PeerKinds={"pingresp", "publish", "disconnect"},
                      QosSet={0}, KAs={0, 10}, SKAs={NA, 0, 5}, Intervals={NA, 0, 7}, RespTimeouts={0, 3}, Fire=True, MaxConns=2, MaxHeld=0,
@@ -86,7 +89,7 @@ SLICES = {
     "rgate": dict(Roles={"client", "server", "any"}, Vers={"v311", "v50", "undet"},
                   PeerKinds={"publish", "puback", "pubrec", "pubrel", "pubcomp", "subscribe", "suback", "unsubscribe", "unsuback",
                              "pingreq", "pingresp", "disconnect", "auth"},
-                  QosSet={0, 1}, PeerWhileDisc=True, RogueHandshake=True, MaxConns=1, MaxHeld=0, Close=False),
+                  QosSet={0, 1}, PeerWhileDisc=True, RogueHandshake=True, MaxConns=1, MaxHeld=0, Close=False, BadFrames={"connect"}),
     "autodetect": dict(Roles={"server", "any"}, Vers={"undet"}, AppKinds={"publish", "suback", "pingresp", "disconnect"},
                        PeerKinds={"publish", "puback", "subscribe", "pingreq", "disconnect", "auth"}, QosSet={0, 1},
                        ConnRMs={NA, 1}, ConnTAMs={NA, 1}, KAs={0, 10}, OptSets=[set(), {"auto_pub", "auto_ping"}], MaxConns=2, Fire=True),
@@ -97,6 +100,12 @@ SLICES = {
                     QosSet={1, 2}, InPids={0, 1}, ExtraPids={0, 9}, OptSets=[set(), {"auto_pub"}], Garbage=True,
                     ConnTAMs={NA, 0}, ConnRMs={NA, 1}, ConnMPSs={NA, 1}, AckTAMs={NA, 0}, AckMPSs={NA, 1}, PeerWhileDisc=True,
                     MaxConns=2, MaxHeld=0),
+    # identifier extremes through the connection API (register 65535 / 0, then use and complete the exchange)
+    "ids_edge": dict(Roles={"client"}, Vers={"v311", "v50"}, AppKinds={"subscribe", "publish"}, PeerKinds={"suback", "puback"}, QosSet={1},
+                     IdOps=True, ExtraPids={65535}, MaxHeld=2, MaxUsed=2, MaxConns=1),
+    # a server refuses a CONNECT while it holds stored packets of the persistent session
+    "refuse_stored": dict(Roles={"server"}, Vers={"v311", "v50"}, AppKinds={"publish"}, PeerKinds={"puback"}, QosSet={1}, MaxConns=2,
+                          Cleans={False}, ConnSEIs={10}, SPs={True, False}, ConnackRcs={0, 135}, MaxUsed=1),
     # connection reuse (C10)
     "reuse_c": dict(Roles={"client"}, Vers={"v311", "v50"}, AppKinds={"publish", "subscribe", "disconnect"},
                     PeerKinds={"publish", "suback"}, QosSet={1}, Topics={"t1"}, Aliases={0, 1},
